@@ -39,6 +39,13 @@ def spec(ctx, tier, seed):
         for op in ('restrict', 'and', 'xor'):
             jobs.append(Job('%s:n2-pairs-%s' % (fk, op), 'harness.bddjobs', 'script_job', {'n': 2, 'script': [S, S, {'op': op, 'a': 0, 'b': 1}], 'features': fl},
                             engine_key=k, stop_after_violations=40))
+        # restriction on all 3-variable functions (diagrams that skip variable levels only exist from n = 3 on)
+        jobs.append(Job('%s:n3-restrict-all' % fk, 'harness.bddjobs', 'script_job', {'n': 3, 'script': [S, {'op': 'restrict', 'a': 0}], 'features': fl},
+                        engine_key=k, stop_after_violations=40))
+        # persistence under every feature set (which private tables exist, and which are exported, depends on the features)
+        for fin in ('post_ops', 'grounded'):
+            jobs.append(Job('%s:n2-serde=>%s' % (fk, fin), 'harness.c14', 'persist_job', {'n': 2, 'fam': ['sym', 'sym'], 'history': ['grounded'], 'final': fin, 'mode': 'serde', 'features': fl},
+                            engine_key=k, stop_after_violations=40))
     return {'jobs': jobs, 'level': 'model_checking', 'assumptions': ASSUMPTIONS, 'allowed_status': ('ok', 'panic', 'bound'),
             'extra_coverage': {'feature_sets': [build.fkey(s) for s in sets], 'feature_sets_total': len(ALL_SETS)},
             'bounds': 'feature sets this run: %s (quick: default + 3 drawn from VERIF_SEED, always one without adhoccounting and one with adhoccountmodels; thorough: all 12). '
@@ -54,6 +61,9 @@ def validate(ctx, tier, seed):
 
 def _mod(v):
     if 'replay' in v: return bddprops
+    if 'case' in v and 'mode' in v['case']:
+        from . import c14
+        return c14
     if 'case' in v and 'proc' in v['case']: return semjobs
     return queryjobs
 
